@@ -138,6 +138,28 @@ theorem idle_two_periods_refills (cfg : Cfg) (hL : 1 ≤ cfg.limit) (hP : 1 ≤ 
     AllGranted cfg (run cfg ops).lim ts :=
   spare_all cfg hP ts _ _ _ (idle_spare cfg _ _ (inv_reachable cfg hL hP ops).lim hidle) hm hlen
 
+/-- The same for every service built from one layer value, separately: each has a limiter of its own (its own
+time starts when it is built), so the idle period, the refill and the routing of rejected / admitted calls are
+per service — `C02.each_service_is_one_limiter` carries every theorem of this file over; here the idle refill and
+"rejected calls go nowhere, admitted calls reach the wrapped service exactly once" are spelt out. -/
+theorem each_service_idle_refills (cfg : Cfg) (hL : 1 ≤ cfg.limit) (hP : 1 ≤ cfg.period) (ops : List FOp)
+    (k : Nat) (s : State) (h : lookup (frun cfg ops).insts k = some s)
+    (hidle : s.lim.lastTry + 2 * cfg.period ≤ s.now)
+    (ts : List Nat) (hm : Mono s.now ts) (hlen : ts.length ≤ cfg.limit) :
+    AllGranted cfg s.lim ts := by
+  obtain ⟨ops', rfl⟩ := frun_reach cfg ops k s h
+  exact idle_two_periods_refills cfg hL hP ops' hidle ts hm hlen
+
+theorem each_service_routes (cfg : Cfg) (hL : 1 ≤ cfg.limit) (hP : 1 ≤ cfg.period) (ops : List FOp)
+    (k : Nat) (s : State) (h : lookup (frun cfg ops).insts k = some s) (c : Nat) :
+    (Ev.result c .rateLimited ∈ s.log → callsOf c s.log = 0) ∧
+    (Ev.result c .notReady ∈ s.log → callsOf c s.log = 0) ∧
+    (∀ r, r ≠ Res.rateLimited → r ≠ Res.notReady → Ev.result c r ∈ s.log → callsOf c s.log = 1) ∧
+    callsOf c s.log ≤ 1 := by
+  obtain ⟨ops', rfl⟩ := frun_reach cfg ops k s h
+  exact ⟨rejected_never_inner cfg hL hP ops' c, not_ready_never_inner cfg hL hP ops' c,
+    (admitted_exactly_once cfg hL hP ops' c).1, (admitted_exactly_once cfg hL hP ops' c).2⟩
+
 /-- A caller cancelled while waiting (or before its first poll) consumes nothing: the limiter
 state, the admissions and the trace are exactly what they were. (A `wait` answer never took a
 permit in the first place: `TR.RateLimiter.room_grants`.) -/
@@ -169,6 +191,18 @@ example :
     let s := run cfg [.arrive 1 ⟨0, .ok⟩, .arrive 2 ⟨0, .ok⟩, .poll 1 false false, .poll 2 false false, .adv 2000]
     s.lim.lastTry + 2 * cfg.period ≤ s.now ∧ s.lim.cur = 2 ∧
     (room cfg s.lim 2000).2 = true ∧ (room cfg (room cfg s.lim 2000).1 2000).2 = true := by decide
+
+/-- The idle refill has no upper bound on the length of the idle stretch (instants are unbounded naturals; the
+number of elapsed buckets is a quotient, never truncated): sliding counter, limit 2, bucket of 1 tick, full at
+t = 0, idle for exactly 2³² buckets (49.7 days at 1 ms) and for 2³² + 1: the next two calls are granted. -/
+example :
+    let cfg : Cfg := { kind := .counter, limit := 2, period := 1, timeout := 1 }
+    let ops := [Op.arrive 1 ⟨0, .ok⟩, .arrive 2 ⟨0, .ok⟩, .poll 1 false false, .poll 2 false false]
+    let s := run cfg (ops ++ [.adv 4294967296])
+    let s1 := run cfg (ops ++ [.adv 4294967297])
+    s.lim.lastTry + 2 * cfg.period ≤ s.now ∧ s.lim.cur = 2 ∧
+    (room cfg s.lim s.now).2 = true ∧ (room cfg (room cfg s.lim s.now).1 s.now).2 = true ∧
+    (room cfg s1.lim s1.now).2 = true ∧ (room cfg (room cfg s1.lim s1.now).1 s1.now).2 = true := by decide
 
 /-- Non-vacuity of cancellation: a sleeping caller is dropped; the limiter is untouched and the
 next window's permit goes to somebody else. -/
